@@ -94,6 +94,8 @@ STRENGTHENED = {
     "C09-m12": "the direct engine placed price ages around the configured maximum only; ages at multiples of 2^16 / 2^31 / 2^32 seconds plus an allowed age were added",
     "C07-m11": "the bankruptcy scenarios gave the account one debt only; half of them now add a second debt in another bank first",
     "C01-m11": "the C01 storms now run the insured-bankruptcy scenario, which first simulates the settlement with a foreign token account in the liquidity-vault slot",
+    "C12-m14": "missed at first (forced withdrawals had arbitrary sizes, never one just past the no-worse-health boundary); for a given repayment the largest accepted forced withdrawal is bisected and committed",
+    "C16-m14": "missed at first (liquidators were fresh, or held one of the two banks); a liquidator that holds a third bank only, so that two positions are opened next to a held one in every relative key order",
     "C15-m9": "missed at first; the pause-chain engine hands the admin role back and forth between two keys",
     "V4-m2": "caught once every gated instruction (not only deposit) is probed right after the pause expiry",
 }
@@ -123,7 +125,7 @@ def row(d):
     c = m.get("confirmed")
     conf = "yes" if c and c.get("demo_passes_on_unchanged_tree") and c.get("demo_fails_with_change") and c["suite_with_change"]["marginfi_lib_164_pass"] else ("n/a" if not c else "NO")
     return sid, title(d), conf, out, note
-print("### 13.1 Changes written by independent sub-agents, seven rounds: -m1/-m2 first, -m3/-m4 third, -m5/-m6 fourth, -m7/-m8 fifth, -m9/-m10 sixth, -m11/-m12 seventh (confirmed = demo passes on the unchanged tree, fails with the change, suite unchanged)\n")
+print("### 13.1 Changes written by independent sub-agents, eight rounds: -m1/-m2 first, -m3/-m4 third, -m5/-m6 fourth, -m7/-m8 fifth, -m9/-m10 sixth, -m11/-m12 seventh, -m13/-m14 eighth (eight properties) (confirmed = demo passes on the unchanged tree, fails with the change, suite unchanged)\n")
 print("| id | change | confirmed | caught by (first signature) | note |\n|---|---|---|---|---|")
 for d in sorted(glob.glob(f"{R}/C??-m*"), key=lambda x: (os.path.basename(x)[:3], int(os.path.basename(x).split("-m")[1]))):
     print("| " + " | ".join(row(d)) + " |")
